@@ -37,5 +37,74 @@ def ofString (s : String) : Bytes := s.toUTF8.toList
 /-- Lossy rendering for human-readable output (ASCII expected). -/
 def toAscii (b : Bytes) : String := String.ofList (b.map fun x => Char.ofNat x.toNat)
 
+/-- `utf8.DecodeRuneInString`: (rune, width). Invalid or truncated encodings give
+`(0xFFFD, 1)`; the empty string gives `(0xFFFD, 0)`. -/
+def decodeRune (b : Bytes) : Nat × Nat :=
+  let cont (x : UInt8) : Bool := 0x80 ≤ x && x ≤ 0xBF
+  match b with
+  | [] => (0xFFFD, 0)
+  | b0 :: r =>
+    if b0 < 0x80 then (b0.toNat, 1)
+    else if 0xC2 ≤ b0 && b0 ≤ 0xDF then
+      match r with
+      | b1 :: _ => if cont b1 then ((b0.toNat - 0xC0) * 64 + (b1.toNat - 0x80), 2) else (0xFFFD, 1)
+      | _ => (0xFFFD, 1)
+    else if 0xE0 ≤ b0 && b0 ≤ 0xEF then
+      match r with
+      | b1 :: b2 :: _ =>
+        let lo : UInt8 := if b0 == 0xE0 then 0xA0 else 0x80
+        let hi : UInt8 := if b0 == 0xED then 0x9F else 0xBF
+        if lo ≤ b1 && b1 ≤ hi && cont b2 then
+          ((b0.toNat - 0xE0) * 4096 + (b1.toNat - 0x80) * 64 + (b2.toNat - 0x80), 3)
+        else (0xFFFD, 1)
+      | _ => (0xFFFD, 1)
+    else if 0xF0 ≤ b0 && b0 ≤ 0xF4 then
+      match r with
+      | b1 :: b2 :: b3 :: _ =>
+        let lo : UInt8 := if b0 == 0xF0 then 0x90 else 0x80
+        let hi : UInt8 := if b0 == 0xF4 then 0x8F else 0xBF
+        if lo ≤ b1 && b1 ≤ hi && cont b2 && cont b3 then
+          ((b0.toNat - 0xF0) * 262144 + (b1.toNat - 0x80) * 4096 + (b2.toNat - 0x80) * 64 + (b3.toNat - 0x80), 4)
+        else (0xFFFD, 1)
+      | _ => (0xFFFD, 1)
+    else (0xFFFD, 1)
+
+/-- `unicode.IsSpace` (White_Space property) as used by `strings.TrimSpace`. -/
+def isSpaceRune (r : Nat) : Bool :=
+  r == 0x09 || r == 0x0A || r == 0x0B || r == 0x0C || r == 0x0D || r == 0x20 || r == 0x85 || r == 0xA0 ||
+  r == 0x1680 || (0x2000 ≤ r && r ≤ 0x200A) || r == 0x2028 || r == 0x2029 || r == 0x202F || r == 0x205F || r == 0x3000
+
+/-- Split into (rune, its bytes) following Go's `range` over a string. -/
+def runes (b : Bytes) : List (Nat × Bytes) :=
+  go b (b.length + 1)
+where
+  go (b : Bytes) : Nat → List (Nat × Bytes)
+    | 0 => []
+    | fuel + 1 =>
+      match b with
+      | [] => []
+      | _ =>
+        let (r, w) := decodeRune b
+        let w := if w == 0 then 1 else w
+        (r, b.take w) :: go (b.drop w) fuel
+
+/-- `strings.TrimSpace`. -/
+def trimSpace (b : Bytes) : Bytes :=
+  let rs := runes b
+  let rs := rs.dropWhile (fun p => isSpaceRune p.1)
+  let rs := (rs.reverse.dropWhile (fun p => isSpaceRune p.1)).reverse
+  rs.flatMap (·.2)
+
+def isAscii (b : Bytes) : Bool := b.all (· < 0x80)
+
+/-- ASCII lower-casing (`strings.ToLower` restricted to ASCII input). -/
+def toLowerAscii (b : Bytes) : Bytes := b.map fun c => if 65 ≤ c && c ≤ 90 then c + 32 else c
+
+/-- `strings.HasPrefix`. -/
+def hasPrefix : Bytes → Bytes → Bool
+  | _, [] => true
+  | [], _ :: _ => false
+  | a :: as, p :: ps => a == p && hasPrefix as ps
+
 end Bytes
 end DepsDev
